@@ -118,6 +118,8 @@ def shards(tier):
     for i in range(14):
         out.append({"kind": "lists", "first": i})
     out.append({"kind": "cross"})
+    out.append({"kind": "far"})
+    out.append({"kind": "replaced"})
     if tier == "thorough":
         out.append({"kind": "ged"})
     return out
@@ -234,6 +236,52 @@ def run_shard(shard, tier, acc):
                 r = compare(acc, gq.build_circuit(la, pa), gq.build_circuit(lb, pb), method, case)
                 if r and (la[0], la[1]) != (lb[0], lb[1]):
                     acc.violation("soundness", method, "different-registers-reported-equal", case, False, True)
+    elif kind == "far":
+        # circuits that are far apart (graph edit distance beyond graphiq's internal upper bound of 30) must not be reported equal
+        lay = (2, 1, 1)
+        A = [["1", "H", "e", 0], ["CNOT", "e", 0, "p", 0], ["1", "H", "e", 1], ["CNOT", "e", 0, "e", 1], ["1", "P", "e", 0], ["CNOT", "e", 1, "p", 0],
+             ["1", "H", "p", 0], ["1", "X", "e", 1], ["CNOT", "e", 1, "e", 0], ["1", "P", "p", 0], ["1", "H", "e", 0], ["CZ", "e", 0, "e", 1],
+             ["1", "H", "e", 1], ["1", "P", "e", 1], ["CNOT", "e", 0, "p", 0], ["1", "X", "p", 0], ["1", "H", "e", 0], ["1", "P", "e", 0]]
+        fam = [[], [["1", "H", "e", 0]], A]
+        for i, j in ((0, 2), (2, 0), (1, 2), (2, 1)):
+            for method in ("GED_full", "GED_adaptive", "direct", "is_isomorphic"):
+                case = {"layout": list(lay), "a": fam[i], "b": fam[j], "method": method}
+                acc.evaluations += 1
+                acc.transitions += 1
+                r = compare(acc, gq.build_circuit(lay, fam[i]), gq.build_circuit(lay, fam[j]), method, case)
+                if r and not equivalent(lay, fam[i], fam[j], method == "is_isomorphic"):
+                    acc.violation("soundness", method, "inequivalent-circuits-reported-equal", case, False, True)
+                acc.nontriv(("far", i, j, method))
+    elif kind == "replaced":
+        # circuits edited in place before being compared: an Identity placeholder replaced by a gate is that gate
+        import graphiq.circuit.ops as ops
+        lay = (2, 1, 1)
+        from .c12 import wire_edges
+        for base, pos, newl in (([["1", "I", "e", 0], ["CNOT", "e", 0, "e", 1]], ("e", 0, 0), ["1", "H", "e", 0]),
+                                ([["CNOT", "e", 0, "p", 0], ["1", "I", "p", 0]], ("p", 0, 1), ["1", "X", "p", 0]),
+                                ([["1", "H", "e", 1], ["1", "I", "e", 1], ["CNOT", "e", 1, "e", 0]], ("e", 1, 1), ["1", "P", "e", 1])):
+            edited = gq.build_circuit(lay, base)
+            node = wire_edges(edited, pos[0], pos[1])[pos[2]][1]
+            edited.replace_op(node, gq.make_op(newl))
+            idx = [k for k, l in enumerate(base) if l[0] == "1" and l[1] == "I"][0]
+            same = base[:idx] + [newl] + base[idx + 1:]
+            without = base[:idx] + base[idx + 1:]
+            for method in ("direct", "is_isomorphic"):
+                for other, exp in ((same, True), (without, None)):
+                    case = {"layout": list(lay), "a": {"built": base, "then_replace_op": [list(pos), newl]}, "b": other, "method": method}
+                    acc.evaluations += 1
+                    acc.transitions += 1
+                    try:
+                        r = bool(edited.compare(gq.build_circuit(lay, other), method=method))
+                        r2 = bool(gq.build_circuit(lay, other).compare(edited, method=method))
+                    except Exception as e:
+                        acc.violation("compare", method, "raises-" + type(e).__name__, case, "a bool", repr(e)[:200])
+                        continue
+                    if exp is True and not (r and r2):
+                        acc.violation("insensitive", method, "edited-circuit-not-equal-to-the-same-circuit-built-directly", case, True, [r, r2])
+                    if exp is None and (r or r2) and not equivalent(lay, same, other, method == "is_isomorphic"):
+                        acc.violation("soundness", method, "inequivalent-circuits-reported-equal", case, False, True)
+                    acc.nontriv(("replaced", repr(base), method, repr(other)))
     elif kind == "ged":
         lay = (2, 1, 1)
         fam = family(lay, 1)
